@@ -107,6 +107,9 @@ func (base *baseConn) init(ipPort, path string, logger log.Logger) {
 }
 
 func (base *baseConn) getWSConn() *websocket.Conn {
+	if simOffline() {
+		return nil
+	}
 	base.logger.Debugf("connecting to %s", base.url)
 	d := websocket.Dialer{ReadBufferSize: defaultBufferSize, WriteBufferSize: defaultBufferSize}
 	conn, _, err := d.Dial(base.url, nil)
@@ -121,6 +124,9 @@ func (base *baseConn) getWSConn() *websocket.Conn {
 }
 
 func (base *baseConn) start() {
+	if simOffline() {
+		return
+	}
 	go base.receiveMessage()
 	go base.loop()
 	go base.logChannel()
